@@ -162,6 +162,10 @@ func c04Worker(w *W) {
 		c04relife(w)
 		return
 	}
+	if w.Spec.Kind == "builtinfile" {
+		asyncBuiltinFile(w, "C04")
+		return
+	}
 	registerMonitorPlugins()
 	tag := log.RegisterTag("c04tag")
 	ctx := context.Background()
@@ -470,6 +474,7 @@ func init() {
 				b.TimeoutS = int(d.Pick(300, 900))
 				specs = append(specs, b)
 			}
+			specs = append(specs, d.NewSpec("builtinfile", "builtinfile", 400, 16))
 			for i := 0; i < int(d.Pick(2, 6)); i++ {
 				s := d.NewSpec("relife", fmt.Sprintf("relife-%d", i), 300+i, 16)
 				s.N = d.Pick(6, 40)
